@@ -55,9 +55,30 @@ class FrameFit(Contract):
     seeded_means_no_global = False
     max_paths = 6000
 
+    scan_caches = False  # C03 (set by contracts/C03.py::refit): attributes that methods other than __init__ / fit assign (read from the class source on every run) count as caches
+
+    def caches_of(self, s):
+        """declared private caches + every attribute `self.<name> = ...` is assigned to in a method of the instance's class other than __init__
+        and fit (memo tables, indexes built on first use): derived from the real source, so a cache added later is covered without a contract edit"""
+        import ast
+        out = list(self.private_caches)
+        cls = getattr(s, "cls", None)
+        if self.scan_caches and cls is not None and hasattr(cls, "methods"):
+            for mname, m in sorted(cls.methods.items()):
+                if mname in ("__init__", "fit", "set_params", "__setstate__"):
+                    continue
+                for nd in ast.walk(m.node):
+                    tgts = nd.targets if isinstance(nd, ast.Assign) else ([nd.target] if isinstance(nd, (ast.AugAssign, ast.AnnAssign)) else [])
+                    for t in tgts:
+                        for x in (t.elts if isinstance(t, (ast.Tuple, ast.List)) else [t]):
+                            if isinstance(x, ast.Attribute) and isinstance(x.value, ast.Name) and x.value.id == "self" \
+                                    and x.attr not in self.params and x.attr not in self.fitted and x.attr not in out:
+                                out.append(x.attr)
+        return out
+
     def prime(self, E, s):
         """C03: the instance has been fitted before on another training set"""
-        for attr in self.fitted + self.private_caches:
+        for attr in self.fitted + self.caches_of(s):
             s.fields[attr] = Stale(attr)
 
     def old(self, E, a):
@@ -86,7 +107,7 @@ class FrameFit(Contract):
             if exc is None:
                 for attr in self.fitted:
                     out["fitted_attribute_%s_overwritten" % attr] = z3.BoolVal(attr in s.fields and not contains_stale(s.fields[attr]))
-                for attr in self.private_caches:
+                for attr in self.caches_of(s):
                     out["cache_%s_does_not_survive_refit" % attr] = z3.BoolVal(not contains_stale(s.fields.get(attr)))
         return out
 
